@@ -50,7 +50,7 @@ PLAN = {
     "C10": {"quick": [native("D", 16, Q), miri("D", MQ)], "thorough": [native("D", 32, T), miri("D", MT)]},
     "C11": {"quick": [witness(1), native("E", 16, Q), miri("E", MQ)], "thorough": [witness(1), native("E", 32, T), miri("E", MT)]},
     "C12": {"quick": [enum("F", F_BATCHES), miri("F", MQ, count=2)], "thorough": [enum("F", F_BATCHES), native("A", 8, T / 2), miri("F", MT // 2, count=2)]},
-    "C13": {"quick": [witness(2), witness(3), native("G", 16, Q), miri("G", MQ, count=3)], "thorough": [witness(2), witness(3), native("G", 32, T, size="thorough"), miri("G", MT, count=3), tsan("G", 8, 20)]},
+    "C13": {"quick": [witness(2), witness(3), native("G", 14, Q), native("B", 2, Q), miri("G", MQ, count=3)], "thorough": [witness(2), witness(3), native("G", 32, T, size="thorough"), miri("G", MT, count=3), tsan("G", 8, 20)]},
     "C14": {"quick": [witness(2), native("D", 12, Q), native("B", 4, Q), miri("D", MQ)], "thorough": [witness(2), native("D", 24, T), native("B", 8, T), miri("D", MT), miri("B", MT // 4)]},
     "C15": {"quick": [native("B", 16, Q), miri("B", MQ, count=3)], "thorough": [native("B", 32, T), miri("B", MT, count=3)]},
     "C16": {"quick": [enum("I", 9, shards=3), native("D", 10, Q), native("K", 4, Q), miri("D", MQ)], "thorough": [enum("I", 9, shards=3), native("D", 24, T), native("K", 8, T), miri("D", MT), miri("I", 3, count=3), miri("K", MT // 4)]},
@@ -81,7 +81,7 @@ RULES = {
         "C10": "family D: subscribed()/subscribed_with() capacity 1-4 x 3 policies, direct twin registered right after, stalled (gated) drop-policy subscriber, unsubscribe/stop at random points; non-trivial iff the subscriber's channel was full at least once (discard, delivery lagging by >= capacity, or progress while stalled); " + SCHED,
         "C11": "family E (+ witness W1): reducers return 0-4 effects per chain of all four kinds, thunks dispatching follow-ups, panicking and gated effects, middleware removing effects, client dispatch_task/thunk, stop with and without backlog; non-trivial iff >=2 effect kinds ran, >=1 follow-up was reduced and >=1 action issued >=2 effects; " + SCHED,
         "C12": "family F: exhaustive enumeration of the verdict assignments {Continue,Done,Break,Err}^(3M) for M=1..3 middlewares x {Dispatch,Keep} (64+4096+262144 assignments x 2), one action per pair on a live store in seed-shuffled order with effect/removal variants; non-trivial = every batch (all pairs are checked against the reference model); distinct = distinct enumeration batch of 2048 pairs (conservative: see assignment_answer_pairs_executed for the pair count)",
-        "C13": "family G: 2-4 client threads running random programs over the whole public API, each ending with stop() (+ witnesses W2, W3 of the known iterator findings); non-trivial iff >=3 client threads and >=4 operation kinds; " + SCHED,
+        "C13": "family B (stop-race programs: a stop() left to its timeout with the loop still running is reported) and family G: 2-4 client threads running random programs over the whole public API, each ending with stop() (+ witnesses W2, W3 of the known iterator findings); non-trivial iff >=3 client threads and >=4 operation kinds; " + SCHED,
         "C14": "families D and B (+ witness W2): iterator consumer on its own thread racing 1-4 producers and stop(), iterator created at a random point before stop(); non-trivial iff >=1 item was consumed while producers were still dispatching and end-of-stream was reached; " + SCHED,
         "C15": "family B with drop(DroppableStore) as the stop operation and outstanding clones used by 1-6 threads; non-trivial as C04 plus >=1 clone used after the drop; " + SCHED,
         "C16": "family K (one SelectorSubscriber instance registered on two stores); family I: exhaustive enumeration of all sequences over {0,1,2} up to length 9 fed to a real SelectorSubscriber, plus family D (subscribe_with_selector on a live store); non-trivial iff the sequence/stream contains both a repeat and a change; distinct = enumeration length class or schedule fingerprint",
